@@ -38,6 +38,14 @@
 (*   "ReleaseOtherKey" endpoint/smtp/session.go: Mail overwrites the       *)
 (*                     cleaned sender, releaseLimits uses another key      *)
 (*                     (callers: Endp = TRUE)                              *)
+(*                                                                         *)
+(* Key populations: besides the ordinary keys the configurations used for  *)
+(* behaviour generation and trace validation contain the source key "null" *)
+(* (the null reverse-path MAIL FROM:<>, limited under the empty domain) and *)
+(* the ip key "lo" (a message without a TCP peer address - LMTP over a unix *)
+(* socket, a locally generated report - is limited under 127.0.0.1).  For  *)
+(* the design they are keys like any other; the harness maps them to the   *)
+(* real spelling.                                                          *)
 (***************************************************************************)
 EXTENDS LimitsObs, Integers, TLC, Json
 
@@ -360,6 +368,29 @@ MailReject(m, d) ==
   /\ hist' = H([a |-> "MailReject", m |-> m, d |-> d])
   /\ UNCHANGED <<cfg, pc, arg, exp, age, res, ops, tab, fresh, extra, xfresh, phase>>
 
+\* remote/remote.go:AddRcpt: the next hop refuses RCPT TO for the recipient that made the
+\* delivery open the connection for domain d (TakeDest succeeded, MAIL was accepted, no
+\* recipient of d has been accepted so far).  Design: nothing about the limits changes - the
+\* connection stays part of the delivery and its permit goes back with all the others when
+\* the delivery ends (End).  (Observation: from here on the message need not hold the permit
+\* any more, see LimitsObs!ObsRcptReject.)
+RcptReject(m, d) ==
+  /\ Remote /\ phase = "run" /\ (Ready \/ ~Gen) /\ pc[m] = "idle"
+  /\ d \in held[m].dst /\ arg[m].d = d /\ d \in obs.cm[m].dst
+  /\ obs' = ObsRcptReject(obs, m, d)
+  /\ hist' = H([a |-> "RcptReject", m |-> m, d |-> d])
+  /\ UNCHANGED <<cfg, pc, arg, held, exp, age, res, ops, sem, tab, fresh, extra, xfresh, devs, phase>>
+
+\* remote/remote.go:AddRcpt: a further recipient of a domain the delivery already has a
+\* connection for, accepted (rej = FALSE) or refused (rej = TRUE) by the next hop: the
+\* connection is reused, no limit operation at all.
+MoreRcpt(m, d, rej) ==
+  /\ Remote /\ phase = "run" /\ Ready /\ pc[m] = "idle" /\ d \in held[m].dst
+  \* behaviour generation: once per delivery and domain is enough
+  /\ ~\E i \in 1..Len(hist) : hist[i].a = "MoreRcpt" /\ hist[i].m = m /\ hist[i].d = d
+  /\ hist' = H([a |-> "MoreRcpt", m |-> m, d |-> d, rej |-> rej])
+  /\ UNCHANGED <<cfg, pc, arg, held, exp, age, res, ops, sem, tab, fresh, extra, xfresh, devs, phase, obs>>
+
 RetVal(m) == IF pc[m] = "r_ok" \/ (pc[m] = "r_rel" /\ res[m] # "rejected") THEN "ok" ELSE res[m]
 Return(m) ==
   /\ pc[m] \in RetPc
@@ -450,7 +481,8 @@ Next ==
   \/ \E m \in Msgs : Step(m) \/ Return(m)
   \/ \E m \in Msgs, ip \in IPs, src \in Srcs : CallTakeMsg(m, ip, src)
   \/ \E m \in Msgs, d \in Dsts : CallTakeDest(m, d) \/ CallRelDest(m, d) \/ MailReject(m, d)
-                                  \/ CallTakeDestRefused(m, d)
+                                  \/ CallTakeDestRefused(m, d) \/ RcptReject(m, d)
+                                  \/ (\E rej \in BOOLEAN : MoreRcpt(m, d, rej))
   \/ \E m \in Msgs : CallEnd(m) \/ EndDst(m) \/ PipeReject(m)
   \/ \E m \in Msgs, src2 \in Srcs : CallRelMsg(m, src2) \/ NestedMail(m, src2)
   \/ Tick \/ Minute
